@@ -961,3 +961,86 @@ Proof. split; vm_compute; discriminate. Qed.
 
 Lemma sweep_db_not_enough : ~ enough false 1 sweep_db /\ (1 < Z.of_N (used_mb false sweep_db))%Z.
 Proof. split; vm_compute; [intro H; apply H; reflexivity | reflexivity]. Qed.
+
+(* clean() as a whole removes nothing when both classes are within their limits (content: or unlimited) *)
+Lemma clean_within_limits cl nl d :
+  (Z.of_N (used_mb false d) <= cl)%Z \/ cl = 0%Z -> (Z.of_N (used_mb true d) <= nl)%Z -> clean cl nl d = (([], []), d).
+Proof.
+  intros Hc Hn. unfold clean.
+  assert (E : clean_pass false cl d = ([], d)).
+  { destruct Hc as [Hc|Hc]; [apply no_delete_within_limit; exact Hc | subst; reflexivity]. }
+  rewrite E, (no_delete_within_limit d true nl Hn). reflexivity.
+Qed.
+
+Lemma usage_never_increases net net' limit d : used_mb net' (snd (clean_pass net limit d)) <= used_mb net' d.
+Proof. rewrite clean_pass_snd'. apply usage_antitone. Qed.
+
+(* ------------------------------------------------------------------------------------------ *)
+(* ORDER BY: the candidate list is sorted by the query's key (oldest first for content)        *)
+(* ------------------------------------------------------------------------------------------ *)
+
+Definition total_le (le : row -> row -> bool) := forall a b, le a b = true \/ le b a = true.
+Definition trans_le (le : row -> row -> bool) := forall a b c, le a b = true -> le b c = true -> le a c = true.
+
+Lemma insert_sorted le x l : total_le le -> trans_le le -> sorted_by le l -> sorted_by le (insert le x l).
+Proof.
+  intros Ht Hr. induction l as [|y t IH]; intro Hs; simpl; [split; [intros ? []|exact I]|].
+  destruct Hs as [Hy Hs]. destruct (le x y) eqn:E.
+  - split; [|split; assumption]. intros z [<-|Hz]; [exact E | eapply Hr; [exact E | apply Hy; exact Hz]].
+  - split; [|apply IH; exact Hs].
+    intros z Hz. apply (Permutation_in _ (insert_perm le x t)) in Hz. destruct Hz as [<-|Hz]; [|apply Hy; exact Hz].
+    destruct (Ht x y) as [H|H]; [congruence | exact H].
+Qed.
+
+Lemma isort_sorted le l : total_le le -> trans_le le -> sorted_by le (isort le l).
+Proof. intros Ht Hr. induction l as [|x t IH]; simpl; [exact I | apply insert_sorted; assumption]. Qed.
+
+Lemma content_le_total : total_le content_le.
+Proof.
+  intros a b. unfold content_le.
+  destruct (N.lt_trichotomy (r_added a) (r_added b)) as [H|[H|H]].
+  - left. apply N.ltb_lt in H. rewrite H. reflexivity.
+  - rewrite H, N.ltb_irrefl, N.eqb_refl. simpl. destruct (N.le_ge_cases (r_len a) (r_len b)) as [L|L]; apply N.leb_le in L; rewrite L; auto.
+  - right. apply N.ltb_lt in H. rewrite H. reflexivity.
+Qed.
+
+Lemma content_le_trans : trans_le content_le.
+Proof.
+  intros a b c. unfold content_le. intros H1 H2.
+  apply orb_true_iff in H1. apply orb_true_iff in H2. apply orb_true_iff.
+  rewrite !andb_true_iff, !N.ltb_lt, !N.eqb_eq, !N.leb_le in *. lia.
+Qed.
+
+Lemma net_le_total : total_le net_le.
+Proof.
+  intros a b. unfold net_le.
+  destruct (N.lt_trichotomy (r_len a) (r_len b)) as [H|[H|H]].
+  - right. apply N.ltb_lt in H. rewrite H. reflexivity.
+  - rewrite H, N.ltb_irrefl, N.eqb_refl. simpl. destruct (N.le_ge_cases (r_added a) (r_added b)) as [L|L]; apply N.leb_le in L; rewrite L; auto.
+  - left. apply N.ltb_lt in H. rewrite H. reflexivity.
+Qed.
+
+Lemma net_le_trans : trans_le net_le.
+Proof.
+  intros a b c. unfold net_le. intros H1 H2.
+  apply orb_true_iff in H1. apply orb_true_iff in H2. apply orb_true_iff.
+  rewrite !andb_true_iff, !N.ltb_lt, !N.eqb_eq, !N.leb_le in *. lia.
+Qed.
+
+Lemma sd_le_total : total_le sd_le.
+Proof. intros a b. unfold sd_le. destruct (N.le_ge_cases (r_added a) (r_added b)) as [L|L]; apply N.leb_le in L; rewrite L; auto. Qed.
+
+Lemma sd_le_trans : trans_le sd_le.
+Proof. intros a b c. unfold sd_le. rewrite !N.leb_le. lia. Qed.
+
+(* the network candidates are sorted largest first (oldest first among equals); the content candidates are the
+   stream blobs oldest first followed by the descriptors oldest first; and a pass deletes a prefix of that list *)
+Lemma cands_sorted d :
+  sorted_by net_le (cands true d) /\
+  exists cb sd, cands false d = cb ++ sd /\ sorted_by content_le cb /\ sorted_by sd_le sd.
+Proof.
+  split.
+  - apply isort_sorted; [apply net_le_total | apply net_le_trans].
+  - eexists. eexists. split; [reflexivity|].
+    split; apply isort_sorted; auto using content_le_total, content_le_trans, sd_le_total, sd_le_trans.
+Qed.
